@@ -197,6 +197,33 @@ Proof.
 Qed.
 Print Assumptions C18_catchup_installs_every_supplied_key.
 
+(* "... and never makes a member live by itself": a catch-up carries no heartbeat information.  The
+   sampling windows of the failure detector are exactly what they were — for every member a window
+   that existed is untouched (neither reported to nor cleared), and at most one EMPTY window is
+   created, for the member caught up.  An empty window never makes a member alive
+   (C10_needs_two_reports), and a window that is untouched gives the same verdict at the next
+   evaluation as it would have given without the catch-up. *)
+Theorem C18_catchup_leaves_the_sampling_windows : forall n i kvs mx gc n' evs,
+  reset_node_state_if_update n i kvs mx gc = Ok (n', evs) ->
+  forall j, wm_get j (fd_samples (nd_fd n')) = wm_get j (fd_samples (nd_fd n)) \/
+            (j = i /\ wm_get j (fd_samples (nd_fd n)) = None /\ wm_get j (fd_samples (nd_fd n')) = Some new_window).
+Proof.
+  intros n i kvs mx gc n' evs Hrun j. unfold reset_node_state_if_update in Hrun.
+  set (cs := if match last_heartbeat_if_deleted (nd_cs n) i with None => true | Some _ => false end
+             then node_state_mut_or_init (nd_cs n) i else nd_cs n) in Hrun.
+  destruct (nm_get i (cs_nodes cs)) as [c|]; [|injection Hrun as <- _; left; reflexivity].
+  destruct (mx <=? c_max c); [injection Hrun as <- _; left; reflexivity|].
+  destruct (mx <? c_gc c); [injection Hrun as <- _; left; reflexivity|].
+  destruct (set_many c kvs []) as [c1 evs1].
+  destruct (lex_lt _ _); [|discriminate]. injection Hrun as <- _.
+  cbn [nd_fd with_fd with_cs]. unfold fd_get_or_create.
+  destruct (wm_get i (fd_samples (nd_fd n))) as [w|] eqn:E; [left; reflexivity|]. cbn [fd_samples].
+  destruct (id_dec i j) as [<-|Hne].
+  - right. split; [reflexivity|]. split; [exact E|]. apply (sm_get_insert_same id_cmp id_cmp_eq).
+  - left. apply (sm_get_insert_other id_cmp id_cmp_eq); exact Hne.
+Qed.
+Print Assumptions C18_catchup_leaves_the_sampling_windows.
+
 Example C18_nonvacuous :
   (* the follow-up of a gossip reset: copy at (gc 10, max 5), fetched state (gc 10, max 10) with
      no newer key: accepted, frontier becomes (10, 10), no abort *)
